@@ -777,15 +777,13 @@ def run(ctx):
         lines.append(f"electrum.type {1 if electrum._is_old_mnemonic(c) else 0} "
                      f"{hx(electrum._normalize(c).encode())} {len(c.split())} {hx(c.encode())}")
     # 2fa word-count rule: search sentences whose version starts "101" at several lengths
-    found = 0
-    k = 0
-    while found < ctx.n(6, 40) and k < 400000:
-        k += 1
-        nw = rng.choice([11, 12, 13, 19, 20, 24])
-        c = " ".join(f"w{rng.getrandbits(40):x}" for _ in range(nw))
-        if electrum._seed_version(c).startswith("101"):
-            found += 1
-            lines.append(f"electrum.type 0 {hx(electrum._normalize(c).encode())} {nw} {hx(c.encode())}")
+    for nw in [11, 12, 13, 19, 20, 21, 24] * ctx.n(1, 5):
+        for _ in range(200000):
+            c = " ".join(f"w{rng.getrandbits(40):x}" for _ in range(nw))
+            if electrum._seed_version(c).startswith("101"):
+                lines.append(f"electrum.type 0 {hx(electrum._normalize(c).encode())} {nw} {hx(c.encode())}")
+                ctx.count("electrum.2fa_words", str(nw))
+                break
     ctx.stream("electrum.index", lines)
     ctx.stream("electrum.seed", seed_lines)
 
